@@ -2337,10 +2337,10 @@ impl Timestamp {
     ) -> Result<Timestamp, Error> {
         let (second, nanosecond) =
             rangeint::uncomposite!(its, c => (c.second, c.nanosecond));
-        Ok(Timestamp {
-            second: second.try_to_rint("unix-seconds")?,
-            nanosecond: nanosecond.to_rint(),
-        })
+        Timestamp::new_ranged(
+            second.try_to_rint("unix-seconds")?,
+            nanosecond.to_rint(),
+        )
     }
 
     #[inline]
